@@ -210,7 +210,9 @@ func runOnce(d Desc, settle time.Duration) mon.Result {
 	}
 	obs := map[string]int64{"cases": 1}
 	tags := []string{"scenario=" + d.Scenario, "kind=" + d.Kind}
-	lossReached := d.Kind == "write" || s.Conn.SawReadErr()
+	// the loss has become visible to the library: a read returned the fault, or (honest transport)
+	// IsAlive already says so
+	lossReached := d.Kind == "write" || s.Conn.SawReadErr() || (d.Alive && !s.Conn.IsAlive())
 	if r.err == nil {
 		obs["op_succeeded"]++
 		if d.Idle {
